@@ -417,6 +417,7 @@ type machine struct {
 	p         *cprog
 	trace     []int
 	panicking bool
+	wart      bool // model the recorded defect "the function's defers run before the operand of return f() is evaluated"
 	steps     int
 	loopVal   map[string]int
 }
@@ -466,6 +467,13 @@ func (m *machine) exec(n *node, fr *mframe) sig {
 	case nReturnCall:
 		// the operand is evaluated first: the callee runs to completion (its deferred calls included);
 		// a panic or error that leaves it keeps unwinding here, otherwise this function returns
+		if m.wart {
+			// the recorded defect, and nothing else: this function's pending defers run now (once, last first)
+			for i := len(fr.defers) - 1; i >= 0; i-- {
+				_ = m.block(fr.defers[i], fr)
+			}
+			fr.defers = nil
+		}
 		if s := m.call(n.n); s.k != sNone {
 			return s
 		}
@@ -529,6 +537,29 @@ func predict(p *cprog) (trace []int, aborted bool) {
 	m := &machine{p: p, loopVal: map[string]int{}}
 	s := m.block(p.fns[0].body, &mframe{})
 	return m.trace, s.k == sPanic || s.k == sRaise
+}
+
+// predictWart is predict with the recorded return-operand defect modelled (see machine.wart); everything else
+// - the callee's defers exactly once and last first, its recover, continued unwinding - is as prescribed.
+func predictWart(p *cprog) (trace []int, aborted bool) {
+	m := &machine{p: p, loopVal: map[string]int{}, wart: true}
+	s := m.block(p.fns[0].body, &mframe{})
+	return m.trace, s.k == sPanic || s.k == sRaise
+}
+
+// returnCallKey names how a ReturnCall cell failed. A cell whose F has registered defers gets the known suffix
+// "F-defers-before-operand" ONLY when the observed run equals the wart-variant prediction exactly; any other
+// run is named after its first divergence from the wart variant, which no known line covers.
+func returnCallKey(c c10Cell, key string, e egoRes) string {
+	if !strings.HasPrefix(c.key, "returncall:F-defers:") {
+		return c.key + ":" + key
+	}
+	ww, wa := predictWart(c.p)
+	wk, _ := traceVerdict(c.p.marks, ww, wa, e)
+	if wk == "" {
+		return c.key + ":F-defers-before-operand"
+	}
+	return c.key + ":vs-wart:" + wk
 }
 
 // ---------------------------------------------------------------- rendering
@@ -940,7 +971,7 @@ func TestC10(t *testing.T) {
 				if strings.HasPrefix(vkey, "returncall:") {
 					// the way a cell fails is part of its key: a cell that is a recorded finding and then starts to
 					// fail differently is a new violation
-					vkey += ":" + key
+					vkey = returnCallKey(c, key, e)
 				}
 				r.Violate(vh.Violation{Key: vkey, Desc: fmt.Sprintf("%s: %s (-o %d)", key, detail, opt),
 					Case:     c10Case{Ego: tprogs[i].Ego, Opt: opt, Want: want, Abort: wantAbort, Marks: c.p.marks},
@@ -948,6 +979,49 @@ func TestC10(t *testing.T) {
 				break
 			}
 		}
+	}
+	// self-test of the classification: a run in which g's own deferred calls are missing (or doubled) must not be
+	// named like the recorded finding
+	for _, c := range table {
+		if !strings.HasPrefix(c.key, "returncall:F-defers:") {
+			continue
+		}
+		ww, wa := predictWart(c.p)
+		want, wantAbort := predict(c.p)
+		synth := func(tr []int, abort bool) egoRes {
+			var b strings.Builder
+			for _, n := range tr {
+				fmt.Fprintf(&b, "m %d\n", n)
+			}
+			e := egoRes{Out: b.String()}
+			if abort {
+				e.Err = "unhandled panic"
+			}
+			return e
+		}
+		exact := synth(ww, wa)
+		k0, _ := traceVerdict(c.p.marks, want, wantAbort, exact)
+		if k0 == "" || !strings.HasSuffix(returnCallKey(c, k0, exact), ":F-defers-before-operand") {
+			t.Fatalf("oracle self-test: the wart trace of %s is not classified as the recorded finding", c.key)
+		}
+		var missing, doubled []int
+		for _, n := range ww {
+			ctx := c.p.marks[n]
+			if strings.HasPrefix(ctx, "g-defer") || ctx == "g-recovered" {
+				doubled = append(doubled, n, n)
+				continue
+			}
+			missing = append(missing, n)
+			doubled = append(doubled, n)
+		}
+		for _, tr := range [][]int{missing, doubled} {
+			e := synth(tr, wa)
+			k1, _ := traceVerdict(c.p.marks, want, wantAbort, e)
+			if k := returnCallKey(c, k1, e); strings.HasSuffix(k, ":F-defers-before-operand") || !strings.Contains(k, ":vs-wart:") {
+				t.Fatalf("oracle self-test: a trace without / with doubled g defer events got the known key %s", k)
+			}
+		}
+		r.Count("oracle.selftests", 1)
 	}
 	rng := vh.Rand("c10")
 	total := vh.N(2000, 60000)
